@@ -161,6 +161,9 @@ pub fn pool(seed: u64) -> Vec<Call> {
     // chain families: the same face, quintant and position NUMBER at a ladder of resolutions (s = 0 is the first-child chain)
     for (k, s) in [(7u8, 0u64), (23, 7), (41, 0x2d), (58, 1)] {
         for res in 3..=16 {
+            if s >= 1u64 << (2 * (res - 1)) {
+                continue;
+            }
             let id = encode(MCell::new(res, k / 5, k % 5, s));
             v.push(Call::CellToLonLat(id));
             v.push(Call::Boundary { id, closed: true, segments: None });
@@ -182,6 +185,9 @@ pub fn pool(seed: u64) -> Vec<Call> {
     // the generic projection with a foreign triangle (public 'for testing'): it must not leave anything behind either
     for (x, y) in [(0.3, 0.3), (0.1, 0.6), (0.25, 0.5), (0.5, 0.2)] {
         v.push(Call::GenericInverse { x, y });
+    }
+    for kind in 0..3u8 {
+        v.push(Call::ContainsMalformed { kind });
     }
     v.push(Call::U64ToHex(0x1234_5678_9abc_def0));
     v.push(Call::HexToU64("ff00".to_string()));
@@ -394,7 +400,9 @@ fn run(ctx: &Ctx) -> Run {
     run.countn("pool.descriptors", pool.len() as u64);
     run.countn("pool.slots_addressed", addressed.len() as u64);
     for (k, c) in table.iter().enumerate() {
-        if c.kind == "panic" {
+        // a hand-built malformed cell structure is in the pool as a call that fails on purpose (its outcome, panic included,
+        // must be the same in every history); every other descriptor has valid arguments
+        if c.kind == "panic" && !matches!(pool[k], Call::ContainsMalformed { .. }) {
             run.violation("C13.cold", json!({"call": pool[k].to_text()}), format!("`{}` panics even when executed alone: {}", pool[k].to_text(), c.short));
         }
     }
@@ -538,6 +546,39 @@ fn run(ctx: &Ctx) -> Run {
         }
     });
     run.merge(sweep);
+
+    // (2c) narrow-counter probe: P, then the same call Q repeated 2^k - 1 (+-1) times, then P again, for k = 8 and 16, on one
+    // thread: the second answer for P must equal the first (a per-thread stamp or sequence number kept in 8 or 16 bits
+    // wraps around exactly there)
+    let probe = crate::report::parallel(6.min(ctx.threads), |w, r| {
+        let period: u64 = [255, 256, 257, 65535, 65536, 65537][w % 6];
+        let mut rng = Rng::stream(ctx.seed, "C13.wrap", w as u64);
+        let fr = Frame::new();
+        for _ in 0..ctx.n(2, 12) {
+            let res = 4 + rng.below(20) as i32;
+            let (plon, plat) = gen::point(&mut rng, &fr, "uniform");
+            let (qlon, qlat) = gen::point(&mut rng, &fr, "uniform");
+            let p = Call::Lookup { lon: plon, lat: plat, res };
+            let q = Call::Lookup { lon: qlon, lat: qlat, res };
+            let first = p.exec().digest();
+            let qd = q.exec().digest();
+            let mut q_changed = false;
+            for _ in 1..(period - 1) {
+                q_changed |= q.exec().digest() != qd;
+            }
+            let again = p.exec().digest();
+            r.evaluations += period;
+            r.count("wrap_probe.sequences");
+            if again != first || q_changed {
+                r.violation(
+                    "C13.repeat",
+                    json!({"call": p.to_text(), "intervening_call": q.to_text(), "period": period}),
+                    format!("`{}` changed its answer after {} repetitions of `{}` on the same thread", p.to_text(), period - 1, q.to_text()),
+                );
+            }
+        }
+    });
+    run.merge(probe);
 
     // (3) first-touch processes: the one-shot global initialisations race exactly once per process
     let n_proc = ctx.n(48, 600);
